@@ -176,6 +176,8 @@ def one_field_v5(kind: int, ival: int, sval: str) -> bool:
     """
     cmd, var, path = FIELDS[part()]
     present, value = deviate(kind, ival, string_for(path, sval))
+    if path[-1] == "tx" and kind in (3, 8) and not THOROUGH:
+        return True      # every valid 1-byte hex string reaches the transaction parser: ~500 slow paths, thorough tier only
     if path[-1] in ("command", "blocks", "brothers") and kind in (3, 8):
         return True      # command: used as a dict key; blocks: decoded natively. Symbolic strings would be enumerated
                          # there; the boundary strings / list_field / C03.hostile_block cover these fields
